@@ -14,6 +14,7 @@ import (
 	"os/exec"
 	"runtime"
 	"strings"
+	"sync/atomic"
 	"syscall"
 	"time"
 
@@ -71,8 +72,10 @@ func (a dAsm) BeginList(n int64) (datamodel.ListAssembler, error) {
 	}
 	return dList{la, a.p}, nil
 }
-func (m dMap) AssembleKey() datamodel.NodeAssembler   { return m.MapAssembler.AssembleKey() }
-func (m dMap) AssembleValue() datamodel.NodeAssembler { return dAsm{m.MapAssembler.AssembleValue(), m.p} }
+func (m dMap) AssembleKey() datamodel.NodeAssembler { return m.MapAssembler.AssembleKey() }
+func (m dMap) AssembleValue() datamodel.NodeAssembler {
+	return dAsm{m.MapAssembler.AssembleValue(), m.p}
+}
 func (m dMap) AssembleEntry(k string) (datamodel.NodeAssembler, error) {
 	va, err := m.MapAssembler.AssembleEntry(k)
 	if err != nil {
@@ -90,7 +93,7 @@ func (l dList) Finish() error { l.p.cur--; return l.ListAssembler.Finish() }
 
 type Cfg struct {
 	Codec    string `json:"codec"`
-	MaxDepth int64  `json:"max_depth"`   // 0 = default
+	MaxDepth int64  `json:"max_depth"`    // 0 = default
 	Budget   int64  `json:"alloc_budget"` // 0 = default
 	Prealloc int64  `json:"max_prealloc"`
 	Relaxed  bool   `json:"relaxed"`
@@ -491,53 +494,180 @@ type SelCase struct {
 	Graph string  `json:"graph,omitempty"`
 }
 
-func selectors(r *core.Run, quick bool) {
-	specs := selectorSpecs(quick)
-	var graphs []*trav.Built
+// selGraphSpecs: the graphs every compiled selector is walked over.
+func selGraphSpecs() []trav.GraphSpec {
+	var out []trav.GraphSpec
 	for _, t := range trav.GraphTrees(3, trav.GraphLeaves(true)) {
-		graphs = append(graphs, trav.Build(trav.GraphSpec{Tree: t}))
+		out = append(out, trav.GraphSpec{Tree: t})
 	}
 	deep := ref.List(ref.List(ref.List(ref.Int(1), ref.Str("xyz")), ref.Map(ref.E("a", ref.List(ref.Int(2))))), ref.Bytes("abc"))
-	graphs = append(graphs, trav.Build(trav.GraphSpec{Tree: deep}), trav.Build(trav.GraphSpec{Tree: deep, Cuts: []int{1, 2}}))
-	core.ParallelFor(len(specs), func(i int) {
-		spec := specs[i]
+	return append(out, trav.GraphSpec{Tree: deep}, trav.GraphSpec{Tree: deep, Cuts: []int{1, 2}})
+}
+
+type selWalkFinding struct {
+	Graph int    `json:"g"`
+	Kind  string `json:"kind"` // panic, nonterm
+	Text  string `json:"text,omitempty"`
+}
+
+type selResult struct {
+	Idx     int              `json:"i"`
+	Compile string           `json:"compile"` // ok, rejected, panic:<text>
+	Alloc   uint64           `json:"alloc"`
+	Walks   int              `json:"walks"`
+	Bad     []selWalkFinding `json:"bad,omitempty"`
+}
+
+// selector compilation and the walks of what compiles allocate at most this much per specification
+// (specifications are < 200 bytes, graphs ≤ 8 nodes; measured worst on the unchanged tree: 85 kB)
+const selAllocBound = 4 << 20
+
+// SelectorWorker compiles and walks specifications from..end of the tier's list, one goroutine, under
+// an address-space limit, announcing each before it starts: an allocation bomb in the compiler or the
+// walker kills this process, not the check, and is attributed to its specification.
+func SelectorWorker(tier string, from, stride int) {
+	var lim syscall.Rlimit
+	lim.Cur, lim.Max = 4<<30, 4<<30
+	syscall.Setrlimit(syscall.RLIMIT_AS, &lim)
+	runtime.GOMAXPROCS(1)
+	specs := selectorSpecs(tier == "quick")
+	var graphs []*trav.Built
+	for _, g := range selGraphSpecs() {
+		graphs = append(graphs, trav.Build(g))
+	}
+	w := bufio.NewWriter(os.Stdout)
+	for i := from; i < len(specs); i += stride {
+		fmt.Fprintf(w, "START %d\n", i)
+		w.Flush()
+		res := selResult{Idx: i}
+		var m0, m1 runtime.MemStats
+		runtime.ReadMemStats(&m0)
 		var sel selector.Selector
 		var err error
-		pan := core.Guard(func() { sel, err = selector.CompileSelector(ref.Basic(spec)) })
-		r.States.Add(1)
-		r.Transitions.Add(1)
-		r.Evals.Add(1)
-		if pan != "" {
-			r.Report("selector", SelCase{Spec: spec}, []core.Finding{core.F("selector-compile/panic("+core.Class(pan)+")", "spec %s: %s", spec, pan)})
-			r.Outcome("compile:panic")
-			return
-		}
-		if err != nil || sel == nil {
-			r.Outcome("compile:rejected")
-			return
-		}
-		r.Outcome("compile:ok")
-		r.NontrivialN(1)
-		for _, g := range graphs {
-			var werr error
-			visits := 0
-			pan := core.Guard(func() {
-				bud := &traversal.Budget{NodeBudget: 100000, LinkBudget: 1000}
-				werr = traversal.Progress{Cfg: g.Config(), Budget: bud}.WalkAdv(g.Root, sel, func(traversal.Progress, datamodel.Node, traversal.VisitReason) error {
-					visits++
-					return nil
+		pan := core.Guard(func() { sel, err = selector.CompileSelector(ref.Basic(specs[i])) })
+		switch {
+		case pan != "":
+			res.Compile = "panic:" + pan
+		case err != nil || sel == nil:
+			res.Compile = "rejected"
+		default:
+			res.Compile = "ok"
+			for gi, g := range graphs {
+				var werr error
+				pan := core.Guard(func() {
+					bud := &traversal.Budget{NodeBudget: 100000, LinkBudget: 1000}
+					werr = traversal.Progress{Cfg: g.Config(), Budget: bud}.WalkAdv(g.Root, sel, func(traversal.Progress, datamodel.Node, traversal.VisitReason) error { return nil })
 				})
-			})
-			r.Transitions.Add(1)
-			r.Traces.Add(1)
-			if pan != "" {
-				r.Report("selector", SelCase{spec, g.Spec.String()}, []core.Finding{core.F("selector-walk/panic("+core.Class(pan)+")", "spec %s over %s: %s", spec, g.Spec, pan)})
-			} else if werr != nil && strings.Contains(werr.Error(), "budget") {
-				r.Report("selector", SelCase{spec, g.Spec.String()}, []core.Finding{core.F("selector-walk/does-not-terminate", "spec %s over %s: more than 100000 visits of a %d-node graph", spec, g.Spec, g.Spec.Tree.Size())})
+				res.Walks++
+				if pan != "" {
+					res.Bad = append(res.Bad, selWalkFinding{gi, "panic", pan})
+				} else if werr != nil && strings.Contains(werr.Error(), "budget") {
+					res.Bad = append(res.Bad, selWalkFinding{gi, "nonterm", ""})
+				}
 			}
+		}
+		runtime.ReadMemStats(&m1)
+		res.Alloc = m1.TotalAlloc - m0.TotalAlloc
+		b, _ := json.Marshal(res)
+		fmt.Fprintf(w, "DONE %s\n", b)
+		w.Flush()
+	}
+	fmt.Fprintln(w, "END")
+	w.Flush()
+}
+
+func selectors(r *core.Run, quick bool) {
+	tier := "thorough"
+	if quick {
+		tier = "quick"
+	}
+	specs := selectorSpecs(quick)
+	gspecs := selGraphSpecs()
+	const shards = 16
+	var worst atomic.Uint64
+	core.ParallelFor(shards, func(shard int) {
+		next := shard // first index this shard still has to run
+		for restarts := 0; next < len(specs) && restarts < 50; restarts++ {
+			cmd := exec.Command(os.Args[0], "C10-selector-worker", tier, fmt.Sprint(next), fmt.Sprint(shards))
+			stdout, _ := cmd.StdoutPipe()
+			var stderr bytes.Buffer
+			cmd.Stderr = &stderr
+			if err := cmd.Start(); err != nil {
+				fmt.Fprintf(os.Stderr, "CHECK-BROKEN: cannot start selector worker: %v\n", err)
+				os.Exit(2)
+			}
+			timer := time.AfterFunc(300*time.Second, func() { cmd.Process.Kill() })
+			sc := bufio.NewScanner(stdout)
+			sc.Buffer(make([]byte, 4<<20), 4<<20)
+			started, ended := -1, false
+			for sc.Scan() {
+				line := sc.Text()
+				switch {
+				case strings.HasPrefix(line, "START "):
+					fmt.Sscanf(line, "START %d", &started)
+				case strings.HasPrefix(line, "DONE "):
+					var res selResult
+					json.Unmarshal([]byte(line[5:]), &res)
+					started = -1
+					next = res.Idx + shards
+					spec := specs[res.Idx]
+					r.States.Add(1)
+					r.Transitions.Add(1 + int64(res.Walks))
+					r.Traces.Add(int64(res.Walks))
+					r.Evals.Add(1)
+					for {
+						w := worst.Load()
+						if res.Alloc <= w || worst.CompareAndSwap(w, res.Alloc) {
+							break
+						}
+					}
+					switch {
+					case strings.HasPrefix(res.Compile, "panic:"):
+						r.Report("selector", SelCase{Spec: spec}, []core.Finding{core.F("selector-compile/panic("+core.Class(res.Compile[6:])+")", "spec %s: %s", spec, res.Compile[6:])})
+						r.Outcome("compile:panic")
+					case res.Compile == "rejected":
+						r.Outcome("compile:rejected")
+					default:
+						r.Outcome("compile:ok")
+						r.NontrivialN(1)
+					}
+					for _, b := range res.Bad {
+						g := gspecs[b.Graph]
+						if b.Kind == "panic" {
+							r.Report("selector", SelCase{spec, g.String()}, []core.Finding{core.F("selector-walk/panic("+core.Class(b.Text)+")", "spec %s over %s: %s", spec, g, b.Text)})
+						} else {
+							r.Report("selector", SelCase{spec, g.String()}, []core.Finding{core.F("selector-walk/does-not-terminate", "spec %s over %s: more than 100000 visits of a %d-node graph", spec, g, g.Tree.Size())})
+						}
+					}
+					if res.Alloc > selAllocBound {
+						r.Report("selector", SelCase{Spec: spec}, []core.Finding{core.F("selector/alloc>bound", "spec %s: compiling it and walking %d small graphs allocated %d bytes (bound %d)", spec, res.Walks, res.Alloc, selAllocBound)})
+					}
+				case line == "END":
+					ended = true
+				}
+			}
+			cmd.Wait()
+			timer.Stop()
+			if ended {
+				break
+			}
+			if started < 0 {
+				fmt.Fprintf(os.Stderr, "CHECK-BROKEN: selector worker died between cases: %s\n", short(stderr.String()))
+				os.Exit(2)
+			}
+			// the worker died inside specification `started`
+			cause := "abort"
+			if strings.Contains(stderr.String(), "out of memory") || strings.Contains(stderr.String(), "cannot allocate") {
+				cause = "oom"
+			}
+			r.Report("selector", SelCase{Spec: specs[started]}, []core.Finding{core.F("selector/"+cause, "spec %s: the worker died compiling or walking it (address-space limit 4 GiB / 300 s watchdog): %s", specs[started], short(stderr.String()))})
+			r.Outcome("compile:worker-died")
+			r.States.Add(1)
+			next = started + shards
 		}
 	})
 	r.Set("selector_specs", len(specs))
+	r.Set("selector_alloc_worst_bytes", worst.Load())
 }
 
 // ---- paths ----
